@@ -77,6 +77,7 @@ func runC12(r *vf.Run) {
 			if !r.Want(qid) {
 				continue
 			}
+			rng := r.RNG(qid) // per-case stream: a replay of this case alone draws the same choices
 			e := gen.Expr(rng, ds, cols, rng.Intn(5), 3)
 			gb := gen.GroupBy(rng, ds, rng.Intn(5), 4000)
 			switch {
